@@ -22,7 +22,7 @@ RULE = ('2-4 contenders (threads sharing one Cache, threads with their own Cache
         'CLOCK_MONOTONIC stamps. evaluations = schedules and process runs judged; distinct_nontrivial = distinct '
         'schedules in which a contender was preempted while holding')
 DISTINCT = ('schedules_preempted_while_holding', 'process_runs')
-REQUIRED = ('schedules_on_jsondisk', 'recipe_arguments_by_position', 'barrier_rounds_beside_a_direct_holder', 'critical_sections_that_failed', 'with_statement_sections', 'schedules_lock', 'schedules_rlock', 'schedules_semaphore', 'schedules_barrier', 'critical_sections',
+REQUIRED = ('housekeeping_calls_beside_lock_holders', 'schedules_on_jsondisk', 'recipe_arguments_by_position', 'barrier_rounds_beside_a_direct_holder', 'critical_sections_that_failed', 'with_statement_sections', 'schedules_lock', 'schedules_rlock', 'schedules_semaphore', 'schedules_barrier', 'critical_sections',
             'contended_acquires', 'nested_acquires', 'refused_releases', 'process_runs_done', 'fanout_schedules',
             'fork_runs_done', 'waiting_contenders_failed_by_injection', 'contenders_with_pickled_handles')
 ASSUMPTIONS = ('witness intervals lie strictly inside the claimed hold period, so an overlap is a proof and clock '
@@ -53,6 +53,13 @@ def schedule(dc, sc, res, rng, label, kind):
         first_kw = {'disk': dc.JSONDisk, 'disk_compress_level': 6} if json_disk else {}
         later_kw = {'disk': dc.JSONDisk} if json_disk else {}
         res.count('schedules_on_jsondisk' if json_disk else 'schedules_on_disk')
+        # bystanders: in a third of these schedules one or two further threads store items that are already expired and
+        # call expire() / cull() / evict() now and then (cull_limit 0, so that only those calls remove them): house-keeping
+        # on the cache that holds the lock takes nothing away from whoever holds it
+        bystanders = rng.randrange(1, 3) if rng.random() < 0.33 else 0
+        if bystanders:
+            first_kw = dict(first_kw, cull_limit=0)
+            res.count('schedules_with_housekeeping_bystanders')
         base = dc.Cache(d, timeout=0, **first_kw)
         caches = LateHandles(rng, n, lambda: dc.Cache(d, timeout=0, **later_kw), shared=base if topo == 'shared' else None,
                              reopen=0.0, first=base if rng.random() < 0.6 else None)
@@ -61,6 +68,10 @@ def schedule(dc, sc, res, rng, label, kind):
     lock_key = rng.choice(['the-lock', 'the-lock', '', 0, b'', ('lock', 1), 0.0])
     if topo != 'fanout' and json_disk and isinstance(lock_key, bytes):
         lock_key = 'the-lock'        # (bytes are not JSON)
+    if topo != 'fanout' and bystanders:
+        # what a holder that died long ago left behind: a row under the lock's key whose lease has run out (it counts
+        # as absent; the first acquire rewrites it in place)
+        base.set(lock_key, None, expire=-1)
     res.count('lock_keys_falsy' if not lock_key else 'lock_keys_other')
     sch = Sched(rng, clock, strategy=rng.choice(['random', 'random', 'preempt']), max_steps=12000,
                 preempt_points={rng.randrange(0, 300) for _ in range(4)})
@@ -221,7 +232,27 @@ def schedule(dc, sc, res, rng, label, kind):
         pass
 
     try:
-        ok = sch.run([contender(i) for i in range(n)])
+        def bystander(bi):
+            c = dc.Cache(d, timeout=0, **later_kw)
+
+            def run():
+                try:
+                    for r in range(rng.randrange(2, 5)):
+                        if r:
+                            c.set('junk-%d-%d' % (bi, r), r, expire=-1, tag='junk', retry=True)
+                        what = rng.choice(['expire', 'expire', 'cull', 'evict']) if r else 'expire'
+                        if what == 'expire':
+                            c.expire(retry=True)
+                        elif what == 'cull':
+                            c.cull(retry=True)
+                        else:
+                            c.evict('junk', retry=True)
+                        res.count('housekeeping_calls_beside_lock_holders')
+                finally:
+                    c.close()
+            return run
+        extra = [bystander(b) for b in range(bystanders)] if topo != 'fanout' else []
+        ok = sch.run([contender(i) for i in range(n)] + extra)
         probe.set_controller(None)
         extra = {'label': label, 'kind': kind, 'topology': topo, 'contenders': n, 'value': value,
                  'trace_hash': sch.trace_hash()}
